@@ -89,7 +89,7 @@ bool op_valid(const Op& op, size_t nshared) {
         return true;
     }
     if (k == "fft" || k == "rfft" || k == "ifft") {
-        return op.a.size() >= 2 && sz(0);
+        return op.a.size() >= 2 && sz(0, 40000);
     }
     if (k == "irfft") {
         return op.a.size() >= 2 && sz(0) && op.iarg(0) % 2 == 0;
@@ -315,6 +315,12 @@ std::vector<double> guarded(const Op& op, const std::vector<Shared>& sh) {
     }
 }
 
+int pick_big_len(Rng& r) {
+    // sizes beyond the usual test range (anything keyed by "large" plans only shows up here)
+    static const int big[] = {16384, 32768, 4099, 8192, 12288, 16385};
+    return big[r.below(sizeof(big) / sizeof(big[0]))];
+}
+
 int pick_len(Rng& r) {
     static const int lens[] = {8,   16,  64,  256, 1024, 4096, 3,   5,   7,   13,  31,   41,   43,  47,  97,  127,
                                211, 1009, 6,   12,  15,  60,   100, 120, 360, 500, 1000, 1023, 24,  86,  200, 2000};
@@ -367,7 +373,7 @@ Plan gen_common(uint64_t seed, const std::string& tier, bool first_use) {
                 op.a = {double(r.below(uint64_t(nshared))), ds};
             } else if (c < 4) {
                 op.kind = "fft";
-                op.a = {double(pick_len(r)), ds};
+                op.a = {double(r.chance(0.06) ? pick_big_len(r) : pick_len(r)), ds};
             } else if (c < 6) {
                 op.kind = "rfft";
                 op.a = {double(pick_len(r)), ds};
